@@ -1043,6 +1043,14 @@ func validateDef(ctx context.Context, insecureKeys bool, keymanagerAddrs []strin
 		return err
 	}
 
+	// Create cluster generates new operator ENRs, so operator addresses and signatures of the definition
+	// cannot be kept, and the config hash covered by the creator and operator signatures would change.
+	for _, operator := range def.Operators {
+		if operator.Address != "" || len(operator.ConfigSignature) > 0 || len(operator.ENRSignature) > 0 {
+			return errors.New("definition with operator addresses or signatures not supported by create cluster, use dkg instead")
+		}
+	}
+
 	if !eth2util.ValidNetwork(network) {
 		return errors.New("unsupported network", z.Str("network", network))
 	}
